@@ -343,6 +343,14 @@ pub enum AnyCal {
     Cal(Cal),
     Union(UnionCal),
     Named(NamedCal),
+    /// the same calendar inside the `CalType` container (what a curve holds); it must behave identically
+    Wrapped(rateslib::calendars::CalType),
+}
+
+impl AnyCal {
+    pub fn is_wrapped(&self) -> bool {
+        matches!(self, AnyCal::Wrapped(_))
+    }
 }
 
 pub fn simple_cal(spec: &CalSpec) -> Option<Cal> {
@@ -353,7 +361,23 @@ pub fn simple_cal(spec: &CalSpec) -> Option<Cal> {
     }
 }
 
+/// one calendar in four (chosen by a hash of its description, so that replays agree) is handed out
+/// inside the `CalType` container
 pub fn build_cal(spec: &CalSpec) -> Option<AnyCal> {
+    use rateslib::calendars::CalType;
+    let any = build_cal_plain(spec)?;
+    if crate::util::hash_str(&spec.describe().to_string()) % 4 != 0 {
+        return Some(any);
+    }
+    Some(AnyCal::Wrapped(match any {
+        AnyCal::Cal(c) => CalType::Cal(c),
+        AnyCal::Union(c) => CalType::UnionCal(c),
+        AnyCal::Named(c) => CalType::NamedCal(c),
+        AnyCal::Wrapped(c) => c,
+    }))
+}
+
+pub fn build_cal_plain(spec: &CalSpec) -> Option<AnyCal> {
     match spec {
         CalSpec::Builtin(_) | CalSpec::Custom { .. } => simple_cal(spec).map(AnyCal::Cal),
         CalSpec::Named(n) => NamedCal::try_new(n).ok().map(AnyCal::Named),
@@ -506,6 +530,7 @@ macro_rules! with_cal {
             $crate::calmodel::AnyCal::Cal($c) => $body,
             $crate::calmodel::AnyCal::Union($c) => $body,
             $crate::calmodel::AnyCal::Named($c) => $body,
+            $crate::calmodel::AnyCal::Wrapped($c) => $body,
         }
     };
 }
